@@ -79,6 +79,26 @@ def confirm(ctx, sub, judge_module, constants, scenario, race=False, extra_args=
     return [r for r in recs if "reject" in r or "kf" in r], vlib.nth_line(tr, 1)
 
 
+def confirm_in_context(ctx, sub, judge_module, constants, scenarios, target_id, pred, race=False, extra_args=(), env=None):
+    """Re-run a whole list of scenarios (a rejection that depends on what was processed before / after the rejected line) and return
+    the rejections of target_id with the same predicate."""
+    d = tempfile.mkdtemp(prefix="confirm-ctx-", dir=ctx.scratch)
+    sp = os.path.join(d, "scen-all.ndjson")
+    vlib.write_ndjson(sp, [{k: v for k, v in sc.items() if k != "obs"} for sc in scenarios])
+    tr = record(ctx, sub, sp, race=race, extra_args=extra_args, env=env)
+    before = ctx.judged
+    recs = vlib.judge(ctx, judge_module, tr, constants=constants, workers=1, label=judge_module + ":confirm-in-context")
+    ctx.judged = before
+    hits = [r for r in recs if "reject" in r and r.get("id") == target_id and r.get("pred") == pred]
+    obs = None
+    if hits:
+        obs = vlib.nth_line(tr, hits[0]["reject"])
+    return hits, obs
+
+
+CONTEXT_PREDS = ("messages parsed afterwards",)      # predicates whose verdict depends on the other lines of the same run
+
+
 def settle(ctx, sub, judge_module, constants, recs, race=False, extra_args=(), max_report=8,
            sig=lambda r: r.get("pred", "?"), env=None):
     """Turn judge records into (violations, known_lines).  Each distinct signature is
@@ -109,8 +129,14 @@ def settle(ctx, sub, judge_module, constants, recs, race=False, extra_args=(), m
         scenario = vlib.nth_line(r["_trace"], line)
         if scenario is None:
             raise Infra("cannot find line %s of %s" % (line, r["_trace"]))
-        again, observed = confirm(ctx, sub, judge_module, constants, scenario, race=race,
-                                  extra_args=extra_args, env=env)
+        in_context = str(r.get("pred", "")).startswith(CONTEXT_PREDS)
+        if in_context:
+            everything = vlib.read_ndjson(r["_trace"])
+            again, observed = confirm_in_context(ctx, sub, judge_module, constants, everything, scenario.get("id"), r.get("pred"),
+                                                 race=race, extra_args=extra_args, env=env)
+        else:
+            again, observed = confirm(ctx, sub, judge_module, constants, scenario, race=race,
+                                      extra_args=extra_args, env=env)
         if not again:
             unreproduced += 1
             log("[%s] rejection %s at line %s did not reproduce" % (ctx.pid, s, line))
@@ -121,7 +147,8 @@ def settle(ctx, sub, judge_module, constants, recs, race=False, extra_args=(), m
             property=ctx.pid, sub=sub, judge=judge_module, constants=constants, race=race,
             extra_args=list(extra_args), scenario={k: v for k, v in scenario.items() if k != "obs"},
             observed=observed.get("obs") if observed else None, judge_record=rec,
-            occurrences=len(by_sig[s])))
+            occurrences=len(by_sig[s]),
+            **({"context": [{k: v for k, v in sc.items() if k != "obs"} for sc in everything], "pred": r.get("pred")} if in_context else {})))
         violations.append(path)
     if unreproduced and not violations:
         raise Infra("%d rejection(s) did not reproduce when re-run alone" % unreproduced)
@@ -130,8 +157,12 @@ def settle(ctx, sub, judge_module, constants, recs, race=False, extra_args=(), m
 
 def replay_generic(ctx, obj):
     """bin/check --replay <file>: re-run the stored scenario and print the verdict."""
-    again, observed = confirm(ctx, obj["sub"], obj["judge"], obj.get("constants", ""), obj["scenario"],
-                              race=obj.get("race", False), extra_args=obj.get("extra_args", ()))
+    if "context" in obj:      # the verdict depends on the other scenarios of the run: replay them all
+        again, observed = confirm_in_context(ctx, obj["sub"], obj["judge"], obj.get("constants", ""), obj["context"], obj["scenario"].get("id"),
+                                             obj.get("pred"), race=obj.get("race", False), extra_args=obj.get("extra_args", ()))
+    else:
+        again, observed = confirm(ctx, obj["sub"], obj["judge"], obj.get("constants", ""), obj["scenario"],
+                                  race=obj.get("race", False), extra_args=obj.get("extra_args", ()))
     known = vlib.load_known(ctx.pid)
     again = [r for r in again if not ("kf" in r and r["kf"] in known)]
     print(json.dumps(dict(scenario=obj["scenario"], observed=observed.get("obs") if observed else None,
